@@ -196,6 +196,10 @@ class JsonSchemaGenerator:
                 break
         for constraint, value, validator in t.__validators__:
             constraint_name = constrains_map.get(constraint, constraint)
+            if constraint == 'regex' and isinstance(value, str):
+                # utype matches the whole value, a JSON Schema pattern is searched for: anchor it
+                if not (value.startswith('^') and value.endswith('$')):
+                    value = f'^(?:{value})$'
             data[constraint_name] = value
 
         extra = getattr(t, 'extra', None)
